@@ -495,10 +495,18 @@ seq_t dtw_warping_paths{{ suffix }}{{ suffix2 }}(seq_t *wps,
         rvalue = -1;
     }
 
+    {%- if "affinity" in suffix %}
     if (settings->max_dist > 0 && rvalue > settings->max_dist) {
         // DTWPruned keeps the last value larger than max_dist. Correct for this.
         rvalue = {{infinity}};
     }
+    {%- else %}
+    if (rvalue > p.max_dist) {
+        // DTWPruned keeps the last value larger than max_dist. Correct for this.
+        // (p.max_dist is expressed in the internal representation, like rvalue at this point)
+        rvalue = {{infinity}};
+    }
+    {%- endif %}
 
 
     {%- if "euclidean" == inner_dist %}
